@@ -75,6 +75,14 @@ ELEM_KEY = "element"
 WILDCARD = "*"
 
 
+def _ek(case):
+    return case.get("element_key", ELEM_KEY)
+
+
+def _wc(case):
+    return case.get("wildcard", WILDCARD)
+
+
 # ------------------------------------------------------------------ implementation adapter
 
 class _Count:
@@ -117,6 +125,15 @@ def _ctor_args(case):
     return na, nd, ea
 
 
+def _wc_kw(case):
+    kw = {}
+    if "wildcard" in case:
+        kw["wildcard_element"] = case["wildcard"]
+    if "element_key" in case:
+        kw["element_key"] = case["element_key"]
+    return kw
+
+
 def _run(case):
     g1, g2 = G.to_nx(case["g1"]), G.to_nx(case["g2"])
     _Count.n = 0
@@ -124,7 +141,7 @@ def _run(case):
         mod = _patched("synkit.Graph.Matcher.mcs_matcher")
         na, nd, ea = _ctor_args(case)
         M = mod.MCSMatcher(node_attrs=na, node_defaults=nd, edge_attrs=ea, prune_wc=case.get("prune_wc", False),
-                           prune_automorphisms=case.get("prune_auto", False))
+                           prune_automorphisms=case.get("prune_auto", False), **_wc_kw(case))
         mode = case.get("mode")
         if mode == "mcs_mol":
             M.find_common_subgraph(g1, g2, mcs=case["mcs"], mcs_mol=True)
@@ -192,6 +209,9 @@ def _sub(case, st):
     d = dict(kind=case["kind"], variant=case["variant"], g1=st["g1"], g2=st["g2"], mcs=st["mcs"],
              node_attrs=cfg["node_attrs"], node_defaults=cfg["node_defaults"], edge_attrs=cfg["edge_attrs"],
              prune_wc=cfg.get("prune_wc", False), prune_auto=cfg.get("prune_auto", False), implicit=cfg.get("implicit", False))
+    for k in ("wildcard", "element_key"):
+        if k in cfg:
+            d[k] = cfg[k]
     if st.get("call") in ("mcs_mol", "component"):
         d["mode"] = st["call"]
     if st.get("call") == "rc_side" and st.get("component"):
@@ -205,9 +225,9 @@ def _new_matcher(sub):
         mod = _patched("synkit.Graph.Matcher.mcs_matcher")
         if sub.get("positional"):
             return mod.MCSMatcher(na, nd, True, edge_attrs=ea, prune_wc=sub.get("prune_wc", False),
-                                  prune_automorphisms=sub.get("prune_auto", False))
+                                  prune_automorphisms=sub.get("prune_auto", False), **_wc_kw(sub))
         return mod.MCSMatcher(node_attrs=na, node_defaults=nd, edge_attrs=ea, prune_wc=sub.get("prune_wc", False),
-                              prune_automorphisms=sub.get("prune_auto", False))
+                              prune_automorphisms=sub.get("prune_auto", False), **_wc_kw(sub))
     mod = _patched("synkit.Graph.MTG.mcs_matcher")
     return mod.MCSMatcher(na, nd, sub["edge_attrs"][0]) if ea is not None else mod.MCSMatcher(na, nd)
 
@@ -280,12 +300,15 @@ def _run_history(case):
             # the ITS facade: find_rc_mapping(its1, its2, side=r|l|op); st["g1"], st["g2"] are the sides it must compare
             its1, its2 = G.to_nx(st["its1"]), G.to_nx(st["its2"])
             _Count.n = 0
-            if st.get("positional"):
+            if variant == "mtg":
+                r = M.find_rc_mapping(its1, its2, mcs=st["mcs"])        # MTG copy: always right side of rc1 vs left side of rc2
+                assert r is None
+            elif st.get("positional"):
                 r = M.find_rc_mapping(its1, its2, side=st["side"], mcs=st["mcs"], component=st.get("component", False))
             else:
                 r = M.find_rc_mapping(rc1=its1, rc2=its2, mcs=st["mcs"], component=st.get("component", False), side=st["side"].upper()
                                       if st.get("upper") else st["side"])
-            assert r is M
+            assert r is M or variant == "mtg"
             cnt = _Count.n
             views = _views(M, variant)
             ok = _derived_ok(M, variant, st.get("reads", ["G1_to_G2", "G2_to_G1"]))
@@ -343,21 +366,21 @@ def _in_domain(case):
                 if isinstance(x, bool) or not isinstance(x, (int, float)) or x * 2 != int(x * 2):
                     return False
         for _, a in g["nodes"]:
-            for k in list(case["node_attrs"]) + [ELEM_KEY]:
+            for k in list(case["node_attrs"]) + [_ek(case)]:
                 x = a.get(k)
                 if x is not None and (isinstance(x, bool) or not isinstance(x, (int, str))):
                     return False
-    for d in case["node_defaults"]:
+    for d in list(case["node_defaults"]) + [_wc(case)]:
         if isinstance(d, bool) or not isinstance(d, (int, str)):
             return False
     return True
 
 
 def _intern(case):
-    vals = [WILDCARD] + list(case["node_defaults"])
+    vals = [_wc(case)] + list(case["node_defaults"])
     for g in (case["g1"], case["g2"]):
         for _, a in g["nodes"]:
-            for k in list(case["node_attrs"]) + [ELEM_KEY]:
+            for k in list(case["node_attrs"]) + [_ek(case)]:
                 if a.get(k) is not None:
                     vals.append(a[k])
     return G.Intern(vals)
@@ -365,13 +388,28 @@ def _intern(case):
 
 def _coq_graph(g, case, I):
     def na(n, a):
-        el = a.get(ELEM_KEY)
+        el = a.get(_ek(case))
         return cpair(copt(None if el is None else cN(I(el))),
                      clist([copt(None if a.get(k) is None else cN(I(a[k]))) for k in case["node_attrs"]]))
 
     def ea(u, v, a):
         return clist([copt(None if a.get(k) is None else cZ(G.half(a[k]))) for k in case["edge_attrs"]])
     return G.coq_lgraph(g, na, ea)
+
+
+def _nx_prune_order(g, case):
+    """Component-wise mode breaks ties between equally large components by the node order of the PRUNED copy
+    G.subgraph(keep).copy().  networkx (FilterAtlas.__iter__) iterates that view in the order of the Python set `set(keep)`
+    when 2*len(keep) < len(G) and in insertion order otherwise; this external order is an INPUT of the model: the graph is
+    handed to the model with its kept nodes listed in that order (everything else about the case is unchanged)."""
+    if case.get("mode") != "component" or not case.get("prune_wc"):
+        return g
+    keep = [n for n, a in g["nodes"] if a.get(_ek(case)) != _wc(case)]
+    if 2 * len(keep) >= len(g["nodes"]):
+        return g
+    attrs = dict((n, a) for n, a in g["nodes"])
+    order = [n for n in set(keep)]
+    return {"nodes": [[n, attrs[n]] for n in order] + [[n, a] for n, a in g["nodes"] if n not in set(keep)], "edges": g["edges"]}
 
 
 def coq_case(case):
@@ -384,9 +422,9 @@ def coq_case(case):
         return None
     I = _intern(case)
     defs = clist([cN(I(d)) for d in case["node_defaults"]])
-    g1, g2 = _coq_graph(case["g1"], case, I), _coq_graph(case["g2"], case, I)
+    g1, g2 = _coq_graph(_nx_prune_order(case["g1"], case), case, I), _coq_graph(_nx_prune_order(case["g2"], case), case, I)
     if case["variant"] == "matcher":
-        return "%s %s %s %s %s %s %s" % ("run_component" if case.get("mode") == "component" else "run_matcher", defs, cbool(case.get("prune_wc", False)), cN(I(WILDCARD)), g1, g2,
+        return "%s %s %s %s %s %s %s" % ("run_component" if case.get("mode") == "component" else "run_matcher", defs, cbool(case.get("prune_wc", False)), cN(I(_wc(case))), g1, g2,
                                                   cbool(case["mcs"]))
     return "run_mtg %s %s %s %s" % (defs, g1, g2, cbool(case["mcs"]))
 
@@ -407,7 +445,7 @@ def _orders(a, case):
 
 def _tables(g, case):
     prune = case.get("prune_wc", False) and case["variant"] == "matcher"
-    lab = {n: _label(a, case) for n, a in g["nodes"] if not (prune and a.get(ELEM_KEY) == WILDCARD)}
+    lab = {n: _label(a, case) for n, a in g["nodes"] if not (prune and a.get(_ek(case)) == _wc(case))}
     adj = {}
     for u, v, a in g["edges"]:
         if u in lab and v in lab:
@@ -851,7 +889,23 @@ def _prune_flip(rng, n):
     out = []
     for t in range(n):
         g1, g2 = _wc_flip_pair(rng)
-        out.append(_mk("prune-flip", g1, g2, rng.random() < 0.7, prune_wc=True, implicit=rng.random() < 0.3))
+        kw = {}
+        if rng.random() < 0.4:
+            # non-default wildcard_element / element_key: the wildcard is "X" (or the int 0) stored under "symbol"; atoms whose
+            # "element" is "*" are then ordinary atoms
+            wc, ek = rng.choice([("X", "symbol"), (0, "symbol"), ("X", "element"), ("*", "symbol")])
+            for g in (g1, g2):
+                for nd_ in g["nodes"]:
+                    is_wc = nd_[1].get("element") == "*"
+                    if ek != "element":
+                        nd_[1][ek] = wc if is_wc else nd_[1].get("element")
+                        if rng.random() < 0.5 and not is_wc:
+                            del nd_[1][ek]
+                    elif is_wc:
+                        nd_[1]["element"] = wc
+            kw = dict(wildcard=wc, element_key=ek)
+        out.append(_mk("prune-flip" + ("+wcopts" if kw else ""), g1, g2, rng.random() < 0.7, prune_wc=True,
+                       implicit=rng.random() < 0.3, **kw))
     return out
 
 
@@ -1014,6 +1068,7 @@ def _rc_side_histories(rng, n):
         cfg = dict(node_attrs=["element", "charge"] if two else ["element"], node_defaults=["*", 0] if two else ["*"],
                    edge_attrs=["order"], implicit=rng.random() < 0.3)
         steps = []
+        variant = "matcher" if rng.random() < 0.8 else "mtg"
         for k in range(rng.randint(1, 3)):
             if k and rng.random() < 0.3:
                 a, b = _small_pair(rng)
@@ -1027,12 +1082,13 @@ def _rc_side_histories(rng, n):
                 for g_ in (l2, r2):
                     for nd_ in g_["nodes"]:
                         nd_[1]["atom_map"] = nd_[0]
-            side = rng.choice(["r", "l", "op"])
+            side = rng.choice(["r", "l", "op"]) if variant == "matcher" else "op"
             g1, g2 = {"r": (r1, r2), "l": (l1, l2), "op": (r1, l2)}[side]
             steps.append(dict(g1=g1, g2=g2, its1=its1, its2=its2, side=side, mcs=rng.random() < 0.8, call="rc_side",
-                              component=rng.random() < 0.4, positional=rng.random() < 0.5, upper=rng.random() < 0.3,
+                              component=variant == "matcher" and rng.random() < 0.4, positional=rng.random() < 0.5,
+                              upper=rng.random() < 0.3,
                               reads=[rng.choice(_DIRS) for _ in range(rng.randint(1, 3))]))
-        out.append(_hist_case("history/rc-sides", "matcher", [cfg], steps))
+        out.append(_hist_case("history/rc-sides", variant, [cfg], steps))
     return out
 
 
@@ -1053,10 +1109,11 @@ def _component_cases(rng, n):
             return G.shuffle_insertion(G.random_relabel(g, rng, 0, 30), rng)
         g1, g2 = multi(), multi()
         kw = {}
-        if rng.random() < 0.3:
+        if rng.random() < 0.4:
+            frac = rng.choice([0.2, 0.6, 0.7])      # > 1/2 wildcards: the pruned copy is iterated in Python-set order (_nx_prune_order)
             for g in (g1, g2):
                 for nd_ in g["nodes"]:
-                    if rng.random() < 0.2:
+                    if rng.random() < frac:
                         nd_[1]["element"] = "*"
             kw["prune_wc"] = True
         if rng.random() < 0.3:
